@@ -13,6 +13,12 @@ write, that may be executed by two goroutines, the code must establish an orderi
 * a channel-close edge: the first access is followed, in program order, by the unique `close(c)` of a
   channel and the second one is preceded, in program order, by an observation that `c` is closed.
 
+A mutex guards the object it lives in.  An object that is reachable from several owners through a
+package-level variable (one `*rand.Rand` created in a `var Default… = …` initialiser and handed to
+every model built from those defaults) is therefore listed by the generator as a location
+`shared:<pkg.Var>-><field>` whose rows hold none of the owners' mutexes: the owners' mutexes are
+different mutexes.  Such a write row conflicts with itself and is unordered.
+
 The table (one row per syntactic access to a field of a concurrently usable type, with the locks
 held at that point) is regenerated from /repo's sources on every run by `harness/cmd/c11 -facts`
 (`ScVerif/Generated/C11Facts.lean`).  Names are numbered by the generator (`fieldNames`, …) so that the
